@@ -647,6 +647,63 @@ func DecGrid(j *job.Job, s *job.Sink) {
 	min64 := new(big.Int).Neg(new(big.Int).Lsh(one, 63))
 	max64 := new(big.Int).Sub(new(big.Int).Lsh(one, 63), one)
 	var idx int64
+	// boundaries written as whole numbers, at every fraction-digits: the number they denote
+	// is the literal times 10^fraction-digits, which fits 64 bits or does not - in particular
+	// when the product is far beyond them and would wrap into range
+	if j.Shard == 0 {
+		two63 := new(big.Int).Lsh(one, 63)
+		two64 := new(big.Int).Lsh(one, 64)
+		for fd := 1; fd <= 18; fd++ {
+			q := exact.Pow10(fd)
+			cands := []*big.Int{}
+			for _, v := range []int64{0, 1, 9, 10, 19, 20, 92, 93, 99, 100, 184, 185, 922, 923, 1844674407, 1844674408, 9223372036, 9223372037} {
+				cands = append(cands, big.NewInt(v))
+			}
+			for k := 1; k <= 20; k++ {
+				cands = append(cands, exact.Pow10(k))
+			}
+			for _, lim := range []*big.Int{two63, two64, new(big.Int).Mul(two64, big.NewInt(3))} {
+				f := new(big.Int).Div(lim, q)
+				for d := int64(-1); d <= 1; d++ {
+					if v := new(big.Int).Add(f, big.NewInt(d)); v.Sign() >= 0 {
+						cands = append(cands, v)
+					}
+				}
+			}
+			for _, w := range cands {
+				for _, neg := range []bool{false, true} {
+					idx++
+					s.Count("decimal_whole_number_boundaries", 1)
+					lit := w.String()
+					val := new(big.Int).Mul(w, q)
+					if neg {
+						lit = "-" + lit
+						val.Neg(val)
+					}
+					fits := val.Cmp(min64) >= 0 && val.Cmp(max64) <= 0
+					forms := []string{lit, "0.." + lit}
+					if neg {
+						forms = []string{lit, lit + "..0"}
+					}
+					for _, str := range forms {
+						got, err := yang.ParseRangesDecimal(str, uint8(fd))
+						desc := map[string]any{"restriction": str, "fraction_digits": fd}
+						switch {
+						case !fits && err == nil:
+							s.Violation(idx, j.CaseID(idx), "C10.decimal", "accepts-invalid", fmt.Sprintf("fraction-digits %d: %q lies outside decimal64 (it denotes %s units of 10^-%d), resolved as %v", fd, str, val, fd, got), desc, nil)
+						case fits && err != nil:
+							s.Violation(idx, j.CaseID(idx), "C10.decimal", "rejects-valid", fmt.Sprintf("fraction-digits %d: %q: %v", fd, str, err), desc, nil)
+						case fits && str == lit:
+							want := new(big.Int).Abs(val)
+							if len(got) != 1 || new(big.Int).SetUint64(got[0].Min.Value).Cmp(want) != 0 || got[0].Min.Negative != (val.Sign() < 0) || !got[0].Min.Equal(got[0].Max) {
+								s.Violation(idx, j.CaseID(idx), "C10.decimal", "value", fmt.Sprintf("fraction-digits %d: %q resolved as %v, it denotes %s units of 10^-%d", fd, str, got, val, fd), desc, nil)
+							}
+						}
+					}
+				}
+			}
+		}
+	}
 	for fi, fd := range []int{1, 2, 3, 9, 17, 18} {
 		q := exact.Pow10(fd) // one unit
 		var grid []*big.Int
